@@ -1,4 +1,6 @@
 """C04 — unweighted sketches have set semantics (structural clauses)."""
+import re
+
 from .. import hirq, nf, slicer
 from ..rulelib import (def_exprs, for_loops, check_seeds, check_roots, tree_of, slicer_of, user_nodes, writes_to_self, self_method_calls,
                        hir_dominates, loop_exits, mutating_self_calls, unconditional_within, while_body, short, resolver_of)
@@ -261,10 +263,41 @@ def _dens_sketch(ctx, facts, prefix):
     return n
 
 
+def histo_init(ctx, facts, which):
+    """HISTO (initial state): the histogram counts, per level, the registers at that level; a new sketcher has all N registers at
+    the top level N-1 (SuperMinHash: register value MAX, whose level is min(MAX, N-1); SuperMinHash2: l[k] = N-1), so the
+    constructor must give b = [0, .., 0, N] and a_upper = N-1. (reinit is tied to the constructor by REINIT.)"""
+    from . import C13
+    from .. import reset
+    S = C13.SMH if which == "smh" else C13.SMH2
+    fid = S["prefix"] + S["ctor"]
+    fn = facts.fn(fid)
+    al = C13.auto_aliases(facts, S)
+    cs = reset.ctor_specs(fn, S["name"], al)
+    b, au = cs.get("b"), cs.get("a_upper")
+    okb = b is not None and b.kind == "fill" and b.val == "0" and b.size == "N" and sorted(b.overrides) == [("(N - 1)", "N")]
+    oka = au is not None and au.kind == "scalar" and au.val == "(N - 1)"
+    if which == "smh":
+        h = cs.get("hsketch")
+        okl = h is not None and h.kind == "fill" and h.size == "N" and re.search(r"MAX|max_value\(\)|INFINITY|infinity\(\)", h.val or "") is not None
+        lvl = "hsketch = %s" % h
+    else:
+        l_ = cs.get("l")
+        okl = l_ is not None and l_.kind == "fill" and l_.size == "N" and l_.val == "(N - 1)"
+        lvl = "l = %s" % l_
+    if okb and oka and okl:
+        ctx.ok("HISTO", fid, "initial histogram b = [0,..,0,N], a_upper = N-1, all N registers at level N-1 (%s)" % lvl, hirq.loc(fn))
+    else:
+        ctx.violation("HISTO", fid, "initial histogram", hirq.loc(fn),
+                      "a new sketcher must start with b = Fill(0; N) with [N-1] = N, a_upper = N-1 and every register at level N-1; found b = %s, a_upper = %s, %s: "
+                      "the draw loop would stop before every position has been offered a value" % (b, au, lvl))
+
+
 def _histo(ctx, facts, fid, kind):
     """HISTO: the histogram b[] of integer parts and its upper bound a_upper bound the draw loop; they must follow every
     register move: in the same guarded block b[old level] -= 1 and b[new level] += 1 (old level read before it is
     overwritten), then a_upper is lowered while b[a_upper] == 0 — and nowhere else are b / a_upper written"""
+    histo_init(ctx, facts, kind)
     fn = facts.fn(fid)
     t = tree_of(fn)
     ws = writes_to_self(fn)
@@ -584,7 +617,7 @@ def run(ctx, facts):
     g += _setsketch(ctx, facts)
     g += _dens_sketch(ctx, facts, OD)
     g += _dens_sketch(ctx, facts, RD)
-    ctx.floor("C04 guarded register writes", g, 12 if has2 else 7)
+    ctx.floor("C04 guarded register writes", g, 10 if has2 else 6)
     e = _exit_aupper(ctx, facts, SMH + "sketch")
     if has2:
         e += _exit_aupper(ctx, facts, SMH2 + "sketch")
